@@ -40,7 +40,12 @@ def resolve_bounds_map(
     tv_map = {tv: AnyValue(AnySource.generic_argument) for tv in all_typevars}
     errors = []
     for tv, bounds in bounds_map.items():
-        bounds = tuple(dict.fromkeys(bounds))
+        try:
+            bounds = tuple(dict.fromkeys(bounds))
+        except TypeError:
+            # a bound may contain an unhashable object (e.g. the value of dict[{}]);
+            # then the duplicates simply stay in
+            bounds = tuple(bounds)
         if is_instance_of_typing_name(tv, "ParamSpec"):
             # For ParamSpec, we use a simpler approach
             solution = solve_paramspec(bounds, ctx)
